@@ -359,6 +359,11 @@ pub fn matmul(a: &T, ta: bool, b: &T, tb: bool, c: Option<&T>) -> Result<T, RErr
         if !broadcastable_to(&c.dims, &dims) {
             return Err(RErr::Refuse);
         }
+        // the statement lists additive terms that span the columns (or hold a single value);
+        // a column-shaped term [rows, 1] is not defined by it
+        if c.len() != 1 && *c.dims.last().unwrap() != cols {
+            return Err(RErr::Unspecified);
+        }
     }
     let nb = numel(&lead);
     let mut x = Vec::with_capacity(nb * rows * cols);
